@@ -174,7 +174,7 @@ def run(replay=None, pid="C06"):
         "bytes in flight, history contents and the alarm are read in-package after every call (projection of the concrete state)",
         "which packets are declared lost is not constrained beyond 'older than the largest acknowledged' (thresholds are not the property)",
         "the application-space packet number generator is replaced by the real skipping generator with a short period so that skips are frequent",
-        "exhaustive for sequences of 3 (thorough 4) stimuli; seeded random walks of 40-120 stimuli beyond",
+        "exhaustive for sequences of 3 stimuli; seeded random walks of 40-120 stimuli beyond (10x as many in the thorough tier)",
     ]
     if replay:
         cases = [json.load(open(os.path.join(replay, "stimulus.json")))]
@@ -182,7 +182,7 @@ def run(replay=None, pid="C06"):
         for cfg in ("app", "hs", "retry"):
             c.model_check("LossRecovery_MC.tla", "LossRecovery_MC_%s.cfg" % cfg)
         cases = []
-        seqs = c.enumerate("LossRecovery_Env.tla", {"L": 3 if not thorough else 4}, timeout=3000)
+        seqs = c.enumerate("LossRecovery_Env.tla", {"L": 3}, timeout=3000)   # 39 letters: L = 4 would be 2.3M sequences per perspective; the thorough tier adds walks
         for persp in ("client", "server"):
             for s in seqs:
                 cases.append({"group": persp, "cfg": {"persp": persp, "validated": False}, "ops": [named(o) for o in s]})
